@@ -47,6 +47,26 @@ M = [
  ('N4 Witness::addVariations stops at the first already-tried variation of an observation',
   'include/AIToolbox/POMDP/Algorithms/Witness.hpp', 'POMDP/WitnessTests',
   "if ( triedVectors_.find(vObs) != std::end(triedVectors_) ) continue;", "if ( triedVectors_.find(vObs) != std::end(triedVectors_) ) break;"),
+ # ---- round 3 (run with --with-fixes: fixes/C02-3,4,5 applied first, as the integrator will; R1..R4 are also caught without them)
+ ('R1 weakBoundDistance forgets cwiseAbs (signed differences: a new vector far BELOW every old one counts as close; the tolerance stop fires early)',
+  'src/POMDP/Utils.cpp', 'POMDP/IncrementalPruningTests',
+  "double distance = (newVE.values - oldVE.values).cwiseAbs().maxCoeff();", "double distance = (newVE.values - oldVE.values).maxCoeff();"),
+ ('R2 Witness: the initial variation equals the tolerance instead of twice it (with a tolerance the loop is never entered)',
+  'include/AIToolbox/POMDP/Algorithms/Witness.hpp', 'POMDP/WitnessTests',
+  "        double variation = tolerance_ * 2; // Make it bigger\n        while ( timestep < horizon_", "        double variation = tolerance_; // Make it bigger\n        while ( timestep < horizon_"),
+ ('R3 WitnessLP scales large hyperplanes UP instead of down (shared by Pruner/Witness; only magnitudes beyond 2^16 are touched)',
+  'src/Utils/Polytope.cpp', 'POMDP/IncrementalPruningTests',
+  "return std::abs(e) > 16 ? std::ldexp(1.0, -e) : 1.0;", "return std::abs(e) > 16 ? std::ldexp(1.0, e) : 1.0;"),
+ ('R4 Witness stops doubling its LP row reservation (rows beyond the reservation)',
+  'include/AIToolbox/POMDP/Algorithms/Witness.hpp', 'POMDP/WitnessTests',
+  "                            reserveSize *= 2;\n", "                            reserveSize += 0;\n"),
+ ('R5 Projecter, generic (non-Eigen) branch: observation probability read at the source state s instead of s1',
+  'include/AIToolbox/POMDP/Algorithms/Utils/Projecter.hpp', 'POMDP/IncrementalPruningTests',
+  "vproj[s] += model_.getTransitionProbability(s,a,s1) * model_.getObservationProbability(s1,a,o) * v[s1];",
+  "vproj[s] += model_.getTransitionProbability(s,a,s1) * model_.getObservationProbability(s,a,o) * v[s1];"),
+ ('R6 LinearSupport: a corner whose support is already known is still appended to goodSupports (duplicate planes handed to findVerticesNaive)',
+  'include/AIToolbox/POMDP/Algorithms/LinearSupport.hpp', 'POMDP/LinearSupportTests',
+  "                if (inserted) goodSupports.push_back(*it);", "                (void)inserted; goodSupports.push_back(*it);"),
  ('H1 harmless: RTBSS prunes on uBound >= max instead of > (same value, same first action)',
   'include/AIToolbox/POMDP/Algorithms/RTBSS.hpp', 'POMDP/RTBSSTests',
   "if ( uBound > max ) {", "if ( uBound >= max ) {"),
@@ -71,12 +91,18 @@ def unit_test(rel):
 
 args = sys.argv[1:]
 unit = '--unit' in args
+with_fixes = '--with-fixes' in args
 sel = [a for a in args if not a.startswith('--')]
 for name, f, ut, a, b in M:
     if sel and name.split()[0] not in sel: continue
+    if a is None: continue
+    if with_fixes:
+        for d in sorted(os.listdir(os.path.join(WT, 'fixes'))):
+            if d.startswith(('C02-3', 'C02-4', 'C02-5')) and d.endswith('.diff'):
+                subprocess.run(['git', '-C', REPO, 'apply', os.path.join(WT, 'fixes', d)], check=True)
     p = os.path.join(REPO, f); s = open(p).read()
     if s.count(a) != 1:
-        print(name, 'PATTERN COUNT', s.count(a)); continue
+        print(name, 'PATTERN COUNT', s.count(a)); subprocess.run(['git', '-C', REPO, 'checkout', '--', '.']); continue
     open(p, 'w').write(s.replace(a, b))
     try:
         r = subprocess.run(['python3', 'tools/check.py', 'C02', '--tier', 'quick'], cwd=WT, env=env, capture_output=True, text=True)
